@@ -12,7 +12,8 @@ from common import ENV, RVA, RVH_DEBUG, WORK, build_rva, hx, proof_stage, run_li
 from pipeline import field, pipe_req
 from props.graphfacts import conclude, replay  # noqa: F401
 
-THEOREMS = ["Rva.sortDiags_sorted", "Rva.sortDiags_perm", "Rva.sorted_unique", "Rva.sortDiags_order_independent"]
+THEOREMS = ["Rva.sortDiags_sorted", "Rva.sortDiags_perm", "Rva.sorted_unique", "Rva.sortDiags_order_independent",
+            "Rva.firstLabel_spec", "Rva.firstLabel_order_free", "Rva.minLabel_spec"]
 
 
 def many_clobbers(rng):
@@ -77,7 +78,7 @@ def ambiguous_free(model_blk):
 
 def run(res, tier, seed):
     rng = random.Random(seed)
-    proof_ok = proof_stage(res, "Rva.Proofs.C10", THEOREMS)
+    proof_ok = proof_stage(res, "Rva.Proofs.C10", THEOREMS, extra_modules=["Rva.Proofs.C05b", "Rva.Proofs.C16"])
     build_rva()
     n = 40 if tier == "quick" else 400
     reps = 6 if tier == "quick" else 12
@@ -218,6 +219,16 @@ def run(res, tier, seed):
     multi += [[("base.s", u)] for u in undef]
     multi.append([("base.s", '.include "z.s"\n.include "a.s"\nmain:\n    li t0, 1\n    li a7, 10\n    ecall\n'),
                   ("z.s", "fz:\n    li t1, 2\n    ret\n"), ("a.s", "fa:\n    li t2, 3\n    ret\n")])
+    # entry labels of one node written at the same position of different files (F-43): the lint that
+    # reports at "the label written first" has to choose between equal positions
+    for names in (["fn_b", "fn_c"], ["fn_c", "fn_b"], ["ab", "aa", "ac"], ["q_long_name", "q2"]):
+        calls = "".join(f"    jal {n}\n" for n in ["fn_a"] + names)
+        base = f'main:\n{calls}    addi a7, zero, 10\n    ecall\nfn_a:\n    addi a0, a0, 1\n.include "i0.s"\n'
+        fl = [("base.s", base)]
+        for k_, n in enumerate(names):
+            last = k_ == len(names) - 1
+            fl.append((f"i{k_}.s", f"{n}:\n" + ("    addi a0, a0, 2\n    ret\n" if last else f'.include "i{k_ + 1}.s"\n')))
+        multi.append(fl)
     mreqs = []
     for fl in multi:
         mreqs += [pipe_req("run", fl)] * reps
